@@ -65,6 +65,25 @@ def rule_eq_totality(check, rule, rule_hash):
                     if sup is not None and atom == ('truthy', sup) and not seen_ni:
                         problems.append(('ni', 'the result of super().__eq__() is used as a bool without testing for NotImplemented '
                                                '(NotImplemented is truthy: comparing with a foreign object goes on to read its attributes)'))
+                # (a') a path on which super().__eq__() may have answered NotImplemented must hand that answer on unchanged:
+                # replacing it by a bool cuts off the reflected comparison of the other operand (x == y and y == x differ)
+                if sup is not None and p.status == 'return' and p.value is not None and p.value[0] == 'K' and isinstance(p.value[1], bool):
+                    excluded = False
+                    for atom, pol in lits:
+                        if atom[0] == 'is' and sup in (atom[1], atom[2]):
+                            o_ = atom[2] if atom[1] == sup else atom[1]
+                            if show(o_).endswith('NotImplemented') and not pol:
+                                excluded = True
+                            if o_ in (K(True), K(False)) and pol:
+                                excluded = True
+                        if atom == ('truthy', sup) and not pol:
+                            excluded = True
+                        if atom[0] == 'isinstance' and atom[1] == sup and pol and 'bool' in str(atom[2]):
+                            excluded = True
+                    if not excluded:
+                        problems.append(('reflect', 'returns %r on a path where super().__eq__() may have returned NotImplemented: the other '
+                                                    'operand\'s reflected __eq__ is never consulted, so x == y and y == x can differ'
+                                         % p.value[1]))
                 # (b) attribute reads on `other` beyond the base class must be dominated by isinstance(other, <own class>)
                 guarded = any(atom[0] == 'isinstance' and atom[1] == ot and pol for atom, pol in lits)
                 reads = set()
@@ -134,9 +153,30 @@ def rule_eq_totality(check, rule, rule_hash):
             hashable_base = inspect_base
             if has_hash:
                 v = ci.assigns.get('__hash__')
+                hm = ci.methods.get('__hash__')
                 if v is not None and isinstance(v, ast.Constant) and v.value is None:
                     check.violation(rule_hash, st, '%s sets __hash__ = None' % ci.name, key=key,
                                     witness='hash(sigtools.signature(f)) raises TypeError')
+                elif hm is not None and inspect_base:
+                    # equal to the plain inspect object carrying the same data => must hash like it: only delegation to the
+                    # base hash is consistent; anything computed from what this class adds differs from the plain hash
+                    selfh = hm.params()[0][0]
+                    own_reads = sorted(set(n_.attr for n_ in ast.walk(hm.node) if isinstance(n_, ast.Attribute) and isinstance(n_.value, ast.Name)
+                                           and n_.value.id == selfh and (n_.attr in (added_slots(ci) or []) or n_.attr in ci.methods)))
+                    delegates = [n_ for n_ in ast.walk(hm.node) if isinstance(n_, ast.Attribute) and n_.attr == '__hash__']
+                    rets = [n_ for n_ in ast.walk(hm.node) if isinstance(n_, ast.Return)]
+                    pure_deleg = len(rets) == 1 and isinstance(rets[0].value, ast.Call) and isinstance(rets[0].value.func, ast.Attribute) \
+                        and rets[0].value.func.attr == '__hash__' and not own_reads
+                    if own_reads:
+                        check.violation(rule_hash, site_of(hm, hm.node), '%s.__hash__ is computed from %s, which the plain inspect object it compares '
+                                        'equal to does not have: equal objects hash differently (and the hash can raise where the plain one '
+                                        'does not)' % (ci.name, ', '.join('self.' + a for a in own_reads)), key=key,
+                                        witness='sigtools.signature(f) == inspect.signature(f) but their hashes differ (postponed annotations)')
+                    elif pure_deleg:
+                        check.holds(rule_hash, site_of(hm, hm.node), '%s.__hash__ delegates to the base hash' % ci.name, key=key)
+                    else:
+                        check.inconclusive(rule_hash, site_of(hm, hm.node), '%s.__hash__ is a method that neither delegates to the base hash nor reads '
+                                           'the added slots: consistency with the plain objects not decided' % ci.name, key=key)
                 else:
                     check.holds(rule_hash, st, '%s defines __hash__ next to __eq__' % ci.name, key=key)
             elif hashable_base:
@@ -146,6 +186,20 @@ def rule_eq_totality(check, rule, rule_hash):
             else:
                 check.holds(rule_hash, st, '%s: no hashable base to stay compatible with' % ci.name, key=key, nontrivial=False)
     check.floor(rule, 'classes overriding __eq__', n, 3)
+
+
+def _falsy_is_legit(ci, pname):
+    """does the class itself use an empty container as a value of this constructor parameter (its default in
+    __init__ is an empty list/dict/tuple display)?  Then an empty value is a legitimate explicit override."""
+    init = ci.methods.get('__init__')
+    if init is None:
+        return False
+    a = init.node.args
+    for arg, d in list(zip(a.kwonlyargs, a.kw_defaults)) + list(zip((a.posonlyargs + a.args)[::-1], a.defaults[::-1])):
+        if arg.arg == pname and d is not None:
+            if isinstance(d, (ast.List, ast.Dict, ast.Tuple, ast.Set)) and not (getattr(d, 'elts', None) or getattr(d, 'keys', None)):
+                return True
+    return False
 
 
 def rule_replace_and_slots(check, rule, classes=UPGRADED):
@@ -219,6 +273,27 @@ def rule_replace_and_slots(check, rule, classes=UPGRADED):
                                                         % (chosen[0][1], tested[1], s_))
                             continue
                     if mname == 'replace':
+                        # the choice between override and receiver's value must not depend on the truthiness of the override:
+                        # `x or self.x` / `x if x else self.x` ignore an explicitly passed empty list / dict / None
+                        truthy_sel = None
+                        if v[0] == 'B' and v[1] == 'or' and v[2][0] == 'P' and v[2] != selft:
+                            truthy_sel = v[2]
+                        if v[0] == 'IF' and v[1][0] == 'lit' and v[1][1][0] == 'truthy' and v[1][1][1][0] == 'P' and v[1][1][1] != selft:
+                            truthy_sel = v[1][1][1]
+                        for atom, pol in p.lits:
+                            if atom[0] == 'truthy' and atom[1][0] == 'P' and atom[1] != selft and (v == atom[1] or v == ('A', selft, s_)):
+                                truthy_sel = atom[1]
+                        if truthy_sel is not None and not _falsy_is_legit(ci, truthy_sel[1]):
+                            truthy_sel = None       # e.g. annotation wrappers: every legitimate value is truthy, `or` is harmless
+                        if truthy_sel is not None:
+                            k4 = k + '|falsy-override'
+                            if k4 not in seen:
+                                seen.add(k4)
+                                check.violation(rule, site_of(m, m.node), '%s.replace keeps the receiver\'s %r whenever the argument %r is falsy: an '
+                                                'explicitly passed empty value (sources=[], source_depths={}, function=None) is silently ignored'
+                                                % (cname, s_, truthy_sel[1]), key=k4, effect=show(v)[:120],
+                                                witness='p.replace(sources=[]).sources == []')
+                            continue
                         # defaults to the receiver's value, overridden by the argument
                         from_self = mentions(v, ('A', selft, s_))
                         lits = dict(p.lits)
@@ -566,3 +641,46 @@ def rule_annotate(check, rule):
             check.holds(rule, site_of(fi, fi.node), 'annotate wraps the %s annotation with UpgradedAnnotation.preevaluated(<same value>)' % what, key=key)
         else:
             check.violation(rule, site_of(fi, fi.node), 'annotate no longer stores %s annotations' % what, key=key)
+
+
+def rule_no_rewrap_of_existing(check, rule):
+    """C11.R2b: an annotation read from an existing parameter / signature may be a postponed string; wrapping it with
+    UpgradedAnnotation.preevaluated() declares the *string* to be the value.  So no call of preevaluated() in the package
+    may receive a term that can be `<param>.annotation` / `<sig>.return_annotation` (zero-expected: the self-test keeps a
+    positive example)."""
+    repo = check.repo
+    n_calls = 0
+    bad = []
+    for fi in repo.all_funcs():
+        calls = [n for n in ast.walk(fi.node) if isinstance(n, ast.Call) and isinstance(n.func, ast.Attribute) and n.func.attr == 'preevaluated']
+        if not calls or fi.qualname.endswith('.preevaluated'):
+            continue
+        check.analysed(fi)
+        it = Interp(repo, Policy())
+        try:
+            paths = it.run(fi)
+        except Inconclusive:
+            check.inconclusive(rule, site_of(fi, fi.node), 'paths of %s not enumerable' % fi.key, key='%s|rewrap' % fi.key)
+            continue
+        check.absorb(it)
+        seen = set()
+        for p in paths:
+            for e, g in walk_effects(p.effects):
+                if e.kind == 'call' and str(e.op).endswith('.preevaluated') and e.args:
+                    arg = e.args[-1]
+                    k = (e.node.lineno, show(arg))
+                    if k in seen:
+                        continue
+                    seen.add(k)
+                    n_calls += 1
+                    raw = [s_ for s_ in subterms(arg) if isinstance(s_, tuple) and s_[0] == 'A' and s_[2] in ('annotation', 'return_annotation')]
+                    key = '%s|rewrap|%s' % (fi.key, show(arg)[:60])
+                    if raw:
+                        check.violation(rule, site_of(fi, e.node), 'preevaluated() is applied to %s, which can be %s: a postponed (string) annotation '
+                                        'written in the source is recorded as if the string were its value and is never evaluated in the '
+                                        'defining module' % (show(arg)[:70], show(raw[0])[:50]), key=key,
+                                        witness='from __future__ import annotations; @annotate(b=str) def f(a: int, b): evaluated() must give a: int')
+                    else:
+                        check.holds(rule, site_of(fi, e.node), 'preevaluated(%s): a value supplied by the caller, not read from an existing parameter'
+                                    % show(arg)[:50], key=key)
+    check.floor(rule, 'calls of UpgradedAnnotation.preevaluated', n_calls, 2)
